@@ -28,9 +28,11 @@ import (
 
 	"github.com/openfga/openfga/internal/condition"
 	"github.com/openfga/openfga/internal/graph"
+	"github.com/openfga/openfga/internal/validation"
 	"github.com/openfga/openfga/internal/verifharness/lib/rec"
 	"github.com/openfga/openfga/internal/verifharness/lib/scen"
 	"github.com/openfga/openfga/pkg/server/commands/listusers"
+	"github.com/openfga/openfga/pkg/storage"
 	"github.com/openfga/openfga/pkg/tuple"
 	"github.com/openfga/openfga/pkg/typesystem"
 )
@@ -147,6 +149,7 @@ type runner struct {
 	resolver graph.CheckResolver
 	checks   map[string]map[[2]string]int // subject -> (object, relation) -> outcome
 	order    []string
+	ctxT     []scen.Tuple // tuples passed as contextual tuples (not in the store)
 }
 
 func (rn *runner) check(sub, obj, rel string) int {
@@ -160,7 +163,7 @@ func (rn *runner) check(sub, obj, rel string) int {
 	if v, ok := m[k]; ok {
 		return v
 	}
-	out, _ := rn.env.Check(rn.ctx, rn.resolver, obj, rel, sub, nil)
+	out, _ := rn.env.Check(rn.ctx, rn.resolver, obj, rel, sub, rn.ctxT)
 	rn.w.Stat("checks", 1)
 	m[k] = out
 	return out
@@ -196,6 +199,11 @@ func (rn *runner) listUsers(s *scen.Scenario, q request) (int, []string) {
 		UserFilters:          []*openfgav1.UserTypeFilter{{Type: q.FType, Relation: q.FRel}},
 		Context:              scen.Struct(s.ReqCtx),
 	}
+	var ctxKeys []*openfgav1.TupleKey
+	for _, t := range rn.ctxT {
+		ctxKeys = append(ctxKeys, t.Proto())
+	}
+	req.ContextualTuples = ctxKeys
 	if err := listusers.ValidateListUsersRequest(ctx, req, rn.env.TS); err != nil {
 		if st, ok := status.FromError(err); ok {
 			switch st.Code() {
@@ -207,7 +215,7 @@ func (rn *runner) listUsers(s *scen.Scenario, q request) (int, []string) {
 		}
 		return 10, nil
 	}
-	lq := listusers.NewListUsersQuery(rn.env.DS, nil,
+	lq := listusers.NewListUsersQuery(rn.env.DS, ctxKeys,
 		listusers.WithResolveNodeLimit(uint32(q.Depth)),
 		listusers.WithListUsersMaxResults(uint32(q.Limit)),
 		listusers.WithListUsersDeadline(20*time.Second),
@@ -232,7 +240,7 @@ func (rn *runner) listUsers(s *scen.Scenario, q request) (int, []string) {
 	return scen.OutAllowed, us
 }
 
-func runScenario(ctx context.Context, w *rec.Writer, r *rec.Rand, s *scen.Scenario, reqs []request, maxReq int) {
+func runScenario(ctx context.Context, w *rec.Writer, r *rec.Rand, s *scen.Scenario, reqs []request, ctxKeys []string, replay bool, maxReq int) {
 	env, err := scen.NewEnv(ctx, s)
 	if err != nil {
 		if errors.Is(err, scen.ErrModelRejected) {
@@ -264,6 +272,48 @@ func runScenario(ctx context.Context, w *rec.Writer, r *rec.Rand, s *scen.Scenar
 	resolver, closer := scen.Resolver(scen.NewForcedPlanner("default"), checkDepth)
 	defer closer()
 	rn := &runner{ctx: ctx, w: w, env: env, in: in, resolver: resolver, checks: map[string]map[[2]string]int{}}
+	// some tuples travel as contextual tuples of the requests instead of being stored (only tuples
+	// that pass the write validation: anything else makes the request itself invalid)
+	if !replay && r.Chance(1, 4) {
+		idx := make([]int, len(s.Tuples))
+		for i := range idx {
+			idx[i] = i
+		}
+		rec.Shuffle(r, idx)
+		for _, i := range idx {
+			if len(ctxKeys) >= 3 {
+				break
+			}
+			if validation.ValidateTupleForWrite(env.TS, s.Tuples[i].Proto()) == nil {
+				ctxKeys = append(ctxKeys, s.Tuples[i].Key())
+			}
+		}
+	}
+	if len(ctxKeys) > 0 {
+		isCtx := map[string]bool{}
+		for _, k := range ctxKeys {
+			isCtx[k] = true
+		}
+		var dels storage.Deletes
+		for _, t := range s.Tuples {
+			if isCtx[t.Key()] {
+				rn.ctxT = append(rn.ctxT, t)
+				dels = append(dels, &openfgav1.TupleKeyWithoutCondition{Object: t.Obj, Relation: t.Rel, User: t.User})
+			}
+		}
+		if err := env.DS.Write(ctx, env.StoreID, dels, nil); err != nil {
+			panic(err)
+		}
+		w.Stat("scenarios_with_contextual_tuples", 1)
+		w.Stat("contextual_tuples", len(rn.ctxT))
+	}
+	usersetsInData := map[string]bool{}
+	for _, t := range s.Tuples {
+		usersetsInData[t.Obj+"#"+t.Rel] = true
+		if _, _, ur := scen.SplitUser(t.User); ur != "" {
+			usersetsInData[t.User] = true
+		}
+	}
 	var rvs []rec.V
 	for _, q := range reqs {
 		ot, _ := scen.SplitObj(q.Obj)
@@ -319,6 +369,9 @@ func runScenario(ctx context.Context, w *rec.Writer, r *rec.Rand, s *scen.Scenar
 				c := o
 				if q.FRel != "" {
 					c = o + "#" + q.FRel
+					if !usersetsInData[c] {
+						continue // only usersets that occur in the data (as a tuple's user or as object#relation)
+					}
 				}
 				rn.check(c, q.Obj, q.Rel)
 			}
@@ -355,7 +408,7 @@ func runScenario(ctx context.Context, w *rec.Writer, r *rec.Rand, s *scen.Scenar
 		}
 		cvs = append(cvs, rec.L(in.Subject(sub), rec.L(pxs...), rec.L(res...)))
 	}
-	desc := map[string]any{"scenario": s, "requests": reqs, "text": s.String()}
+	desc := map[string]any{"scenario": s, "requests": reqs, "ctx": ctxKeys, "text": s.String()}
 	if len(reqs) == 0 {
 		desc["nt"] = false
 	}
@@ -383,11 +436,12 @@ func main() {
 			var d struct {
 				Scenario *scen.Scenario `json:"scenario"`
 				Requests []request      `json:"requests"`
+				Ctx      []string       `json:"ctx"`
 			}
 			if json.Unmarshal(sc.Bytes(), &d) != nil || d.Scenario == nil {
 				continue
 			}
-			runScenario(ctx, w, rec.NewRand(1), d.Scenario, d.Requests, maxReq)
+			runScenario(ctx, w, rec.NewRand(1), d.Scenario, d.Requests, d.Ctx, true, maxReq)
 		}
 		return
 	}
@@ -400,6 +454,6 @@ func main() {
 		} else {
 			s = scen.Generate(rr, scen.DefaultOpts())
 		}
-		runScenario(ctx, w, rr, s, nil, maxReq)
+		runScenario(ctx, w, rr, s, nil, nil, false, maxReq)
 	}
 }
